@@ -46,6 +46,15 @@ let parse_op (s : string) : op =
   | ["rsd"] -> ORemoveSortedDups
   | ["rd"] -> ORemoveDups
   | ["isp"; x] -> OInsertSorted (z_of_int (int_of_string x))
+  | ["atr"; i] -> OAddTailRef (n i)
+  | ["ahr"; i] -> OAddHeadRef (n i)
+  | ["iar"; idx; i] -> OInsertAtRef (n idx, n i)
+  | ["rpr"; idx; i] -> OReplaceRef (n idx, n i)
+  | ["rar"; i] -> ORemoveAllRef (n i)
+  | ["stf"; e] -> OShrinkToFit (n e)
+  | ["eca"; k] -> OEnsureCanAdd (n k)
+  | ["rpa"; x] -> OReplaceAll (z_of_int (int_of_string x))
+  | ["gap"] -> OPieces
   | _ -> failwith ("bad op " ^ s)
 
 (* two-queue cases: "b.<op>" = single-queue op on B, "<op>" on A; binary ops name [this] by 0 (A) / 1 (B) *)
@@ -62,6 +71,7 @@ let parse_op2 (s : string) : op2 =
   | ["atq"; t; self; st; nm] -> OAddTailMultiQ (b t, b self, n st, n nm)
   | ["ahq"; t; self; st; nm] -> OAddHeadMultiQ (b t, b self, n st, n nm)
   | ["iiq"; t; self; i; st; nm] -> OInsertItemsAtQ (b t, b self, n i, n st, n nm)
+  | ["cmp"; t] -> OCompare (b t)
   | _ -> OOn (false, parse_op s)
 
 let show_out = function
